@@ -5,7 +5,6 @@ import (
 	"fmt"
 	"testing"
 
-	"github.com/dtn7/dtn7-go/pkg/agent"
 	"github.com/dtn7/dtn7-go/pkg/bpv7"
 	vk "github.com/dtn7/dtn7-go/pkg/verifkit"
 	"pgregory.net/rapid"
@@ -44,7 +43,11 @@ func c07NodeBody(c *vk.Ctx, cs c07NodeCase) {
 	pingEP := ""
 	if cs.Ping >= 0 {
 		pingEP = c07NodeEPs[cs.Ping%3]
-		s.core.RegisterApplicationAgent(agent.NewPing(bpv7.MustNewEndpointID(pingEP)))
+		ping := newVfPingProxy(bpv7.MustNewEndpointID(pingEP))
+		s.core.RegisterApplicationAgent(ping)
+		// before the node is closed the ping agent must owe nothing (dtn7's multiplexer panics with "send on
+		// closed channel" if an agent hands over a bundle during shutdown; outside every listed property)
+		defer s.quiescePing(ping)
 	}
 	for i := 0; i < cs.Peers; i++ {
 		s.addPeer(fmt.Sprintf("p%d", i))
@@ -90,6 +93,9 @@ func c07NodeBody(c *vk.Ctx, cs c07NodeCase) {
 				s.receive(b)
 			}
 			s.barrier(s.inlet)
+			for _, a := range agents {
+				a.flush() // the multiplexer has handed the bundle over; wait until the mock has recorded it
+			}
 			// which agents must have got it
 			matching := 0
 			for k, eps := range cs.Agents {
